@@ -88,7 +88,7 @@ def enabled(cfg):
         if act == 'RxConnect':
             return s['eio'][a['t']] == 'open' and s['nextSid'] <= max_sid \
                 and a['t'] not in s['binbuf']
-        if act in ('RxDisconnect', 'RxEvent', 'RxAck', 'RxRaw'):
+        if act in ('RxDisconnect', 'RxEvent', 'RxAck', 'RxAckDup', 'RxRaw'):
             return s['eio'][a['t']] == 'open' and a['t'] not in s['binbuf']
         if act == 'RxFrame':
             if s['eio'][a['t']] != 'open':
@@ -218,6 +218,7 @@ def acks(cfg):
             for id in cfg['ack_ids']:
                 for args in cfg.get('ack_args', ([], ['v1'], ['v1', 'v2'])):
                     A.append(mk('RxAck', t=t, ns=ns, id=id, args=args))
+                A.append(mk('RxAckDup', t=t, ns=ns, id=id, args=['v1']))
         for ns in cfg['ns_api']:
             A.append(mk('RxFrame', t=t, kind='hdr', ty='BINARY_ACK', ns=ns,
                         id=1, ev='', n=1))
